@@ -26,6 +26,7 @@ ENTRY = dict(
                "Frame.__eq__ compares the lazy caches: a frame whose .bytes/.data was read differs from a fresh frame built from the same "
                "arguments (modelled; reported as an observation, not judged as a violation).",
     clauses={
+        "serialise -> parse for EVERY serialisable frame, also those the library transmits itself (recipient 0x45) and any kind / sender / size up to the 16-bit length": "theorem (C03.parse_encode over the gate-free Model/ParseEnvelope.parseEnvelope; read_encode is the same behind the reader's gates)",
         "serialise -> read gives the same kind, addressing, versions, payload (all frames passing the gates, any trailing bytes)": "theorem + correspondence (reader model = FrameReader.read, shared with C01)",
         "read -> re-serialise reproduces the consumed bytes (all streams, last byte 0x16)": "theorem + correspondence",
         "network information data -> message -> data (all configurations, flags independent)": "theorem + correspondence (codec model = network_info.py)",
